@@ -121,3 +121,35 @@ Example C15_nonvacuous :
 Proof.
   vm_compute. repeat split; try reflexivity. repeat constructor; discriminate.
 Qed.
+
+(* ---------- source level (tie C, second translator): gen/Translated2.v is produced on every
+   check by `harness translate2` from the Go text of util.go / http.go; index and slice
+   expressions are bounds-CHECKED there (result Panic), loops run on fuel (result OutOfFuel).
+   For EVERY []byte value (elements 0..255, length an int) the handshake line parsers and their
+   helpers return normally: no index or slice expression is out of range, no loop outlives the
+   fuel 65 + len.  (Statement about the translation; trusted: harness/translate2.go, lib/GoSlices.v.) *)
+Require Import GoSlices Translated2 Translated2Ok.
+From Coq Require String.
+Import String.StringSyntax.
+Local Open Scope string_scope.
+
+Theorem C15_source_no_panic_line_parsers : forall l : list Z, go_bytes l -> go_fits l ->
+  (exists r, g2_httpParseRequestLine l = Ok r) /\ (exists r, g2_httpParseResponseLine l = Ok r) /\
+  (exists r, g2_httpParseHeaderLine l = Ok r) /\ (exists r, g2_httpParseVersion l = Ok r).
+Proof. exact src_no_panic_parsers. Qed.
+Print Assumptions C15_source_no_panic_line_parsers.
+
+Theorem C15_source_no_panic_helpers : forall l : list Z, go_bytes l -> go_fits l ->
+  (exists r, g2_asciiToInt l = Ok r) /\ (exists r, g2_btrim l = Ok r) /\
+  (exists r, g2_canonicalizeHeaderKey l = Ok r) /\
+  (forall c, (0 <= c < 256)%Z -> exists r, g2_bsplit3 l c = Ok r).
+Proof. exact src_no_panic_helpers. Qed.
+Print Assumptions C15_source_no_panic_helpers.
+
+(* a realistic header line with blanks on both sides of key and value, and the three results are
+   pairwise distinct *)
+Example C15_source_nonvacuous :
+  g2_httpParseHeaderLine (zb (HsHttp.bs " sec-websocket-KEY :" ++ [9%N] ++ HsHttp.bs " dGhlIHNhbXBsZSBub25jZQ==  "))
+  = Ok (zb (HsHttp.bs "Sec-Websocket-Key"), zb (HsHttp.bs "dGhlIHNhbXBsZSBub25jZQ=="), true)
+  /\ (@Panic unit <> OutOfFuel) /\ (forall a : unit, Ok a <> Panic /\ Ok a <> OutOfFuel).
+Proof. split; [vm_compute; reflexivity|]. split; [discriminate|]. intros a; split; discriminate. Qed.
